@@ -143,7 +143,7 @@ def build_struct(fl, assign, nmode, nf_flip, sp, ctx='alone', generic=False):
                 expect='accept', run=True, depth=depth)
 
 
-def build_enum(fl, assign, emode, vmode, nf_flip, place_first, sp, ctx='alone', plain_twin=False):
+def build_enum(fl, assign, emode, vmode, nf_flip, place_first, sp, ctx='alone', generic=False):
     ename = {'d': None, 'e': 'Ty', 'r': 'Renamed'}[emode]
     vname = {'d': 'V%d' % (0 if place_first else 1), 'r': 'Vx', 'o': None}[vmode]
     focus = 0 if place_first else 1
@@ -176,16 +176,28 @@ def build_enum(fl, assign, emode, vmode, nf_flip, place_first, sp, ctx='alone', 
     vattrs = [[], []]
     if vmeta:
         vattrs[focus] = ['#[educe(%s)]' % vmeta]
-    src = S.render_type(shape, ['#[educe(%s)]' % traits], tys_all, fattrs_all, vattrs, derives='Educe')
-    values = [S.ctor(shape, focus, [v[k % len(v)] for v in vals]) for k in range(2)] + [S.ctor(shape, 1 - focus, ['V(7)'])]
-    src += 'fn values() -> Vec<Ty> {\n    vec![%s]\n}\n' % ', '.join(values)
-    binds = ['a%d' % i if assign[i] != 'i' else '_' for i in range(fl.n)]
-    src += ('fn model(x: &Ty, f: &mut std::fmt::Formatter<\'_>) -> std::fmt::Result {\n    match x {\n        %s => { %s }\n'
-            '        %s => { %s }\n    }\n}\n') % (S.pattern(shape, focus, binds), model_body(style, name, shown),
+    gen, inst, where = '', 'Ty', ''
+    extra_val, extra_bind = [], []
+    if generic:
+        if fl.style == 'u':
+            return None
+        gen, inst, where = "<'a, T: Clone, const CN: usize>", "Ty<'static, u8, 0>", 'where T: PartialEq'
+        fl2 = S.Fields(fl.style, fl.n + 1)
+        variants = [fl2, sib] if place_first else [sib, fl2]
+        shape = S.Shape('enum', variants)
+        tys_all[focus] = tys_all[focus] + ["&'a [T; CN]"]
+        fattrs_all[focus] = fattrs_all[focus] + [place('Debug(ignore)', 'Hash(ignore)', ctx)]
+        extra_val, extra_bind = ['&[]'], ['_']
+    src = S.render_type(shape, ['#[educe(%s)]' % traits], tys_all, fattrs_all, vattrs, generics=gen, where=where, derives='Educe')
+    values = [S.ctor(shape, focus, [v[k % len(v)] for v in vals] + extra_val) for k in range(2)] + [S.ctor(shape, 1 - focus, ['V(7)'])]
+    src += 'fn values() -> Vec<%s> {\n    vec![%s]\n}\n' % (inst, ', '.join(values))
+    binds = ['a%d' % i if assign[i] != 'i' else '_' for i in range(fl.n)] + extra_bind
+    src += ('fn model(x: &%s, f: &mut std::fmt::Formatter<\'_>) -> std::fmt::Result {\n    match x {\n        %s => { %s }\n'
+            '        %s => { %s }\n    }\n}\n') % (inst, S.pattern(shape, focus, binds), model_body(style, name, shown),
                                                S.pattern(shape, 1 - focus, ['a0']), model_body('tuple', sib_name, [('_0', 'a0', False)]))
     src += 'pub fn check(r: &mut Rep) {\n    let vs = values();\n    debug_check(r, &vs, &|x, alt| if alt { format!("{:#?}", x) } else { format!("{:?}", x) }, model);\n}\n'
-    key = 'C06|e|%s@%d|%s|e%s|v%s|%s|%d%s' % (fl.code(), focus, assign, emode, vmode, 'flip' if nf_flip else 'nf', sp % 7, '' if ctx == 'alone' else '|' + ctx)
-    depth = sum(1 for c in assign if c != 's') + (emode != 'd') + (vmode != 'd') + nf_flip + (ctx != 'alone')
+    key = 'C06|e|%s@%d|%s|e%s|v%s|%s|%d%s%s' % (fl.code(), focus, assign, emode, vmode, 'flip' if nf_flip else 'nf', sp % 7, '' if ctx == 'alone' else '|' + ctx, '|G' if generic else '')
+    depth = sum(1 for c in assign if c != 's') + (emode != 'd') + (vmode != 'd') + nf_flip + (ctx != 'alone') + generic
     return Case(key, src, {'kind': 'enum', 'fields': fl.code(), 'focus': focus, 'assign': assign, 'enum_name': emode, 'variant_name': vmode,
                            'named_field_flipped': bool(nf_flip), 'ctx': ctx}, expect='accept', run=True, depth=depth)
 
@@ -251,6 +263,9 @@ def generate(tier):
             for nmode in 'do':
                 sp += 1
                 add(build_struct(fl, assign, nmode, 0, sp, generic=True))
+                for first in (True, False):
+                    add(build_enum(fl, assign, 'e' if nmode == 'd' else 'd', 'd', 0, first, sp, generic=True))
+                    add(build_enum(fl, assign, 'd', 'o' if nmode == 'o' else 'r', 1, first, sp + 1, generic=True))
             for ctx in CTX[1:]:
                 sp += 1
                 add(build_struct(fl, assign, 'd', 0, sp, ctx=ctx))
